@@ -112,3 +112,8 @@ func VHarnessRaceMeltMelt() {
 		v.Assert(v.Implies(mayBePaid, v.Or(spent, pend)), "C05 concurrent melts: the inputs of the payment that may still succeed stay locked or spent, whatever the losing request does")
 	}
 }
+
+// thorough tier: one more pre-emption
+func VHarnessRaceSwapSwap3() { vhRaceSpend("swap", 3) }
+func VHarnessRaceSwapMelt3() { vhRaceSpend("melt", 3) }
+func VHarnessRaceMintMint3() { vhRaceMint(false, 3) }
